@@ -50,7 +50,12 @@ func (solarWeek *SolarWeek) GetIndex() int {
 	if offset < 0 {
 		offset += 7
 	}
-	return int(math.Ceil(float64(solarWeek.day+offset) / 7))
+	day := solarWeek.day
+	if 1582 == solarWeek.year && 10 == solarWeek.month && day >= 15 {
+		// 1582-10-05 .. 1582-10-14 do not exist
+		day -= 10
+	}
+	return int(math.Ceil(float64(day+offset) / 7))
 }
 
 func (solarWeek *SolarWeek) GetIndexInYear() int {
